@@ -167,6 +167,14 @@ Theorem C17_contains_prefix_forms_agree : forall p l,
 Proof. exact contains_prefix_sorted_eq_unsorted. Qed.
 Print Assumptions C17_contains_prefix_forms_agree.
 
+(* the same with repeated labels in the slice (sorted, equal neighbours allowed) *)
+Theorem C17_contains_prefix_forms_agree_with_repeats : forall p l,
+  WF p -> canonical p = true -> elabs_ok l -> sorted_le l -> same_len l ->
+  (forall x, In x l -> llen p <= llen (e_label x)) ->
+  eset_contains_prefix (BinarySearchable l) p = eset_contains_prefix (Unsorted l) p.
+Proof. exact contains_prefix_sorted_eq_unsorted_le. Qed.
+Print Assumptions C17_contains_prefix_forms_agree_with_repeats.
+
 Example C17_forms_agree_hyp_sat :
   let e b := El (NL (b :: zeros 31) 8) [] in
   let l := [e 16; e 83; e 95; e 128] in let p := NL (80 :: zeros 31) 4 in
